@@ -342,12 +342,22 @@ func libStubs() map[string]StubFn {
 	// strings
 	m["strings.HasPrefix"] = func(c *CallCtx) { c.Return(StrPrefixOf(c.args[1].(*Term), c.args[0].(*Term))) }
 	m["strings.Count"] = func(c *CallCtx) {
-		c.ex.declareUF("strcount", []Sort{StrSort, StrSort}, BVSort(64))
 		s, sep := c.args[0].(*Term), c.args[1].(*Term)
 		if s.Const && sep.Const {
 			c.Return(BVC(64, uint64(strings.Count(s.Str, sep.Str))))
 			return
 		}
+		if bstrL > 0 && sep.Const && len(sep.Str) == 1 {
+			// exact: number of positions i < len(s) holding the byte
+			n := BVC(64, 0)
+			for i := 0; i < bstrL; i++ {
+				hit := And(bvCmp("bvult", BVC(64, uint64(i)), StrLen(s)), Eq(StrAt(s, BVC(64, uint64(i))), BVC(8, uint64(sep.Str[0]))))
+				n = bvBin("bvadd", n, Ite(hit, BVC(64, 1), BVC(64, 0)))
+			}
+			c.Return(n)
+			return
+		}
+		c.ex.declareUF("strcount", []Sort{StrSort, StrSort}, BVSort(64))
 		c.Return(app(BVSort(64), "strcount", s, sep))
 	}
 	m["strings.Join"] = func(c *CallCtx) {
@@ -382,18 +392,61 @@ func libStubs() map[string]StubFn {
 		fn, rv := c.ex.resolveInvoke(i, c.instr.(*ssa.Call).Call.Method)
 		c.ex.invoke(c.st, nil, fn, []Value{rv}, c.retTo, false, c.instr)
 	}
+	// strings.TrimSpace on bounded strings: exact for byte strings without multi-byte space runes
+	// (U+0085 and U+00A0 need two bytes in UTF-8; lone bytes 0x85/0xa0 are not spaces)
+	m["strings.TrimSpace"] = func(c *CallCtx) {
+		s := c.args[0].(*Term)
+		if s.Const {
+			c.Return(StrC(strings.TrimSpace(s.Str)))
+			return
+		}
+		if bstrL == 0 {
+			unsupported("strings.TrimSpace on a symbolic SMT-LIB string (use the bounded representation)")
+		}
+		isSpace := func(b *Term) *Term {
+			return Or(Eq(b, BVC(8, ' ')), And(bvCmp("bvuge", b, BVC(8, 9)), bvCmp("bvule", b, BVC(8, 13))))
+		}
+		n := StrLen(s)
+		// lo = length of the leading run of spaces (within len)
+		lo := BVC(64, 0)
+		run := True
+		for i := 0; i < bstrL; i++ {
+			run = And(run, bvCmp("bvult", BVC(64, uint64(i)), n), isSpace(StrAt(s, BVC(64, uint64(i)))))
+			lo = bvBin("bvadd", lo, Ite(run, BVC(64, 1), BVC(64, 0)))
+		}
+		// t = length of the trailing run of spaces
+		t := BVC(64, 0)
+		run = True
+		for j := 0; j < bstrL; j++ {
+			idx := bvBin("bvsub", bvBin("bvsub", n, BVC(64, 1)), BVC(64, uint64(j)))
+			run = And(run, bvCmp("bvult", BVC(64, uint64(j)), n), isSpace(StrAt(s, idx)))
+			t = bvBin("bvadd", t, Ite(run, BVC(64, 1), BVC(64, 0)))
+		}
+		allSpace := Eq(lo, n)
+		hi := bvBin("bvsub", n, t)
+		c.Return(Ite(allSpace, StrC(""), StrSub(s, lo, hi)))
+	}
 	m["math.Float64bits"] = func(c *CallCtx) { c.Return(FPToBits(c.args[0].(*Term))) }
 	m["math.Float32bits"] = func(c *CallCtx) { c.Return(FPToBits(c.args[0].(*Term))) }
 	m["math.Float64frombits"] = func(c *CallCtx) { c.Return(FPFromBits(c.args[0].(*Term))) }
 	m["math.Float32frombits"] = func(c *CallCtx) { c.Return(FPFromBits(c.args[0].(*Term))) }
 	m["math.IsNaN"] = func(c *CallCtx) { c.Return(FPIsNaN(c.args[0].(*Term))) }
 	m["runtime.Gosched"] = noop
+	// single-threaded execution: locks are no-ops
+	for _, n := range []string{"(*sync.Mutex).Lock", "(*sync.Mutex).Unlock", "(*sync.RWMutex).Lock", "(*sync.RWMutex).Unlock", "(*sync.RWMutex).RLock", "(*sync.RWMutex).RUnlock"} {
+		m[n] = noop
+	}
 	// sync/atomic on one thread: plain loads and stores (thread mode is not used by these checks)
 	atomicLoad := func(c *CallCtx) { c.Return(c.ex.load(c.st, c.args[0].(Ptr))) }
 	m["sync/atomic.LoadUint32"] = atomicLoad
 	m["sync/atomic.LoadInt32"] = atomicLoad
 	m["sync/atomic.LoadUint64"] = atomicLoad
 	m["sync/atomic.LoadInt64"] = atomicLoad
+	m["sync/atomic.LoadPointer"] = atomicLoad
+	atomicStore := func(c *CallCtx) { c.ex.store(c.st, c.args[0].(Ptr), c.args[1]); c.Return(nil) }
+	m["sync/atomic.StorePointer"] = atomicStore
+	m["sync/atomic.StoreInt32"] = atomicStore
+	m["sync/atomic.StoreUint32"] = atomicStore
 	// Comp.TypeOf(v): the universe's type object for v's dynamic type (xreflect internals not encoded)
 	typeOfDyn := func(c *CallCtx) {
 		i, ok := c.args[len(c.args)-1].(Iface)
